@@ -1,4 +1,4 @@
 From Coq Require Import Extraction ExtrOcamlBasic.
-From Verif Require Import Lib.Sx Model.PathsWin.
-Definition run_main := run_pathswin.
+From Verif Require Import Lib.Sx Model.PathsSess.
+Definition run_main := run_pathssess.
 Extraction "../build/ml/c02.ml" run_main.
